@@ -272,3 +272,13 @@ package sql
 //@     where $e == nil && $c != nil && !*$c && $cb == $b && $b == bucketName
 //@ ensures[C01:non-empty-bucket-refused] called(sms.objectRepository.ContainsBucketObjectsByBucketName) && result_of(sms.objectRepository.ContainsBucketObjectsByBucketName, 1) == nil &&
 //@     *result_of(sms.objectRepository.ContainsBucketObjectsByBucketName, 0) ==> err == metadatastore.ErrBucketNotEmpty
+
+// C08 / C14. Acquiring references for a list of parts (a copy or a storage-class change that shares the source's part
+// rows) asks the registry for exactly what partregistry.RefsFromPartIds computes from the caller's list: one reference
+// per listed occurrence.
+//@ func (*sqlMetadataStore).TryAddPartReferences
+//@ property C08 C14
+//@ mode effects
+//@ effect[C08:references-acquired-per-listed-occurrence] every sms.partRegistryRepository.TryAddReferences(_, $t, $refs)
+//@     needs before partregistry.RefsFromPartIds($ids) -> ($r)
+//@     where $t == tx && same($ids, partIds) && same($refs, $r)
